@@ -1017,8 +1017,6 @@ mzd_t *mzd_addmul_m4rm(mzd_t *C, mzd_t const *A, mzd_t const *B, int k) {
   rci_t a = A->nrows;
   rci_t c = B->ncols;
 
-  if (C->ncols == 0 || C->nrows == 0) return C;
-
   if (A->ncols != B->nrows)
     m4ri_die("mzd_mul_m4rm A ncols (%d) need to match B nrows (%d) .\n", A->ncols, B->nrows);
   if (C == NULL) {
@@ -1026,6 +1024,7 @@ mzd_t *mzd_addmul_m4rm(mzd_t *C, mzd_t const *A, mzd_t const *B, int k) {
   } else {
     if (C->nrows != a || C->ncols != c) m4ri_die("mzd_mul_m4rm: C has wrong dimensions.\n");
   }
+  if (C->ncols == 0 || C->nrows == 0) return C;
   return _mzd_mul_m4rm(C, A, B, k, FALSE);
 }
 
